@@ -30,6 +30,10 @@ ENCODERS = [
 WIDTH = dict(i8=8, i16=16, i24=24, i32=32)
 
 
+def gen(ctx):
+    L.gen_tables(ctx)
+
+
 def in_domain(kind, a):
     if kind is None:
         return True
